@@ -429,6 +429,71 @@ fn gen_history(rng: &mut SplitMix, focus: &str) -> History {
     }
 }
 
+
+/// C10 boundary sweep for the http storage (inline <= 4, heap above): see udp_swarm::gen_sweep
+fn gen_sweep(index: u64) -> Option<History> {
+    let ages: [u32; 8] = [0, 1, 2, 3, 1800, u32::MAX / 2, u32::MAX - 1, u32::MAX];
+    let t0s: [u32; 4] = [0, 1, 1000, u32::MAX - 3];
+    let sizes: [usize; 8] = [1, 2, 4, 5, 6, 7, 9, 12];
+    let mut i = index;
+    let age = ages[(i % 8) as usize];
+    i /= 8;
+    let t0 = t0s[(i % 4) as usize];
+    i /= 4;
+    let size = sizes[(i % 8) as usize];
+    i /= 8;
+    let pos = (i % 3) as usize;
+    i /= 3;
+    let seeder = i % 2 == 0;
+    i /= 2;
+    let re = (i % 5) as usize;
+    i /= 5;
+    let v6 = i % 2 == 1;
+    i /= 2;
+    if i > 0 {
+        return None;
+    }
+    let target = match pos {
+        0 => 0,
+        1 => size / 2,
+        _ => size - 1,
+    };
+    let sources: Vec<String> = (0..size).map(|m| if v6 { format!("fd00::{:x}", m + 1) } else { format!("10.0.0.{}", m + 1) }).collect();
+    let mut ops = Vec::new();
+    for m in 0..size {
+        ops.push(Op::Announce { t: 0, src: m, port: 1000 + m as u16, event: 2, left: if (m == target) == seeder { 0 } else { 1 }, numwant: Some(50), lag: 0 });
+    }
+    let mut issue = t0 as u64;
+    let mut clock = t0 as u64;
+    let re_off: Option<u64> = match re {
+        0 => None,
+        1 => Some(0),
+        2 => Some(1),
+        3 => Some((age as u64).saturating_sub(1)),
+        _ => Some(age as u64),
+    };
+    if let Some(off) = re_off {
+        if clock + off < u32::MAX as u64 - 2 {
+            ops.push(Op::Clean { advance: off as u32 });
+            clock += off;
+            ops.push(Op::Announce { t: 0, src: target, port: 1000 + target as u16, event: 0, left: if seeder { 0 } else { 1 }, numwant: Some(50), lag: 0 });
+            issue = clock;
+        }
+    }
+    let deadline = issue + age as u64;
+    let mut last = clock;
+    for instant in [deadline.saturating_sub(1), deadline, deadline + 1] {
+        if instant < last || instant > u32::MAX as u64 - 1 {
+            continue;
+        }
+        ops.push(Op::Clean { advance: (instant - last) as u32 });
+        last = instant;
+        ops.push(Op::Observe { t: 0, v6 });
+        ops.push(Op::Scrape { v6, ts: vec![0] });
+    }
+    Some(History { max_peers: 50, max_scrape_torrents: 10, max_peer_age: age, start_clock: t0, mode: 0, initial_list: vec![], torrents: vec![vcore::hex(&[0x77u8; 20])], sources, rng_seed: index, ops })
+}
+
 fn relevant(property: &str, clause: &str) -> bool {
     match property {
         "C07" => matches!(clause, "counts" | "handout" | "family" | "scrape" | "panic" | "peerlist" | "torrent_count"),
@@ -462,6 +527,35 @@ fn main() {
                 report.violation(&f.signature, f.clause, f.detail, json!({"engine":"http_swarm","history": h, "failing_op": f.op_index}));
             }
         }
+        report.finish(&args.out());
+    }
+    if args.get("mode") == Some("sweep") {
+        let mut idx = 0u64;
+        let mut ops = 0u64;
+        while let Some(h) = gen_sweep(idx) {
+            let mut shape = Shape::default();
+            match run_history(&h, &mut shape) {
+                Ok(n) => ops += n,
+                Err(f) => {
+                    if relevant(&property, f.clause) {
+                        let mut hh = h.clone();
+                        hh.ops.truncate(f.op_index + 1);
+                        report.violation(&f.signature, f.clause, format!("boundary sweep case {}: {}", idx, f.detail), json!({"engine":"http_swarm","history": hh, "failing_op": f.op_index, "sweep_index": idx}));
+                    }
+                }
+            }
+            if shape.counters.contains_key("clean_expired_some") {
+                report.nontrivial(vcore::fnv(&idx.to_le_bytes()));
+            }
+            if idx == 4321 {
+                report.sample(serde_json::to_value(&h).unwrap());
+            }
+            idx += 1;
+        }
+        report.evals(ops);
+        report.add("sweep_cases", idx);
+        report.extra.insert("exhaustive".into(), json!(true));
+        report.rule = "deterministic boundary grid (http storage, mock clock): 8 max ages x 4 announce times x 8 swarm sizes (inline <= 4 and heap) x 3 positions x seeder/leecher x 5 re-announce offsets x 2 families, cleans at deadline-1 / deadline / deadline+1 with scrape + observer read-out vs reference model; non-trivial = case in which a pass expired something; distinct = grid index".into();
         report.finish(&args.out());
     }
     let seed = args.seed();
